@@ -228,7 +228,7 @@ fn canary_must_fail() {
         specs.append(dict(name=name, kind=o["kind"], contract=o["contract"], functions=o["functions"], bound=o["bound"]))
     specs.append(CANARY)
     obs, cmd, out = kani.run_harnesses(crate, specs, NAME, "num", jobs=12, timeout=3000,
-                                       harness_timeout="12m" if tier == "thorough" else "6m",
+                                       harness_timeout="20m" if tier == "thorough" else "10m",
                                        extra_flags=["--no-overflow-checks", "--no-assertion-reach-checks"])
     kani.attach_counterexamples(obs, crate, "num", out)
     meta["note"] = "CBMC-level --no-overflow-checks: Rust's own overflow/div/shift panics are MIR assertions and ARE checked; what is off are CBMC's NaN / float-overflow / pointer-overflow instrumentation"
